@@ -107,22 +107,24 @@ pub struct Framed<T, U> {
 // ===================================================================== write side (C14)
 impl<T, U> Framed<T, U> {
 
-//@extract file=actix-codec/src/framed.rs item="impl<T, U> Framed<T, U> / fn is_write_ready" ret=r props=C14
+//@extract file=actix-codec/src/framed.rs item="impl<T, U> Framed<T, U> / fn is_write_ready" ret=r props=C14,C13
 //@spec
     ensures
         r == (self.write_buf@.len() < HW),   // [C14] back-pressure from the high-water mark on
 //@end
 
-//@extract file=actix-codec/src/framed.rs item="impl<T, U> Framed<T, U> / fn write" ret=r props=C14 unproject
+//@extract file=actix-codec/src/framed.rs item="impl<T, U> Framed<T, U> / fn write" ret=r props=C14,C13 unproject
 //@spec
     ensures
         // an accepted item appends exactly its encoding; nothing reaches the transport yet   [C14]
         r is Ok ==> final(self).write_buf@ == old(self).write_buf@ + U::enc(item),
+        // whatever happens to THIS item, the bytes of the items accepted before it stay buffered, in place   [C14]
+        old(self).write_buf@.is_prefix_of(final(self).write_buf@),
         final(self).io == old(self).io,
         final(self).read_buf == old(self).read_buf && final(self).flags == old(self).flags,
 //@end
 
-//@extract file=actix-codec/src/framed.rs item="impl<T, U> Framed<T, U> / fn flush" ret=r props=C14 unproject
+//@extract file=actix-codec/src/framed.rs item="impl<T, U> Framed<T, U> / fn flush" ret=r props=C14,C13 unproject
 //@spec
     ensures
         // lossless and ordered under any pattern of partial writes / Pending / errors:
@@ -153,7 +155,7 @@ impl<T, U> Framed<T, U> {
             }
 //@end
 
-//@extract file=actix-codec/src/framed.rs item="impl<T, U> Framed<T, U> / fn close" ret=r props=C14 unproject
+//@extract file=actix-codec/src/framed.rs item="impl<T, U> Framed<T, U> / fn close" ret=r props=C14,C13 unproject
 //@spec
     ensures
         final(self).io.written() + final(self).write_buf@ == old(self).io.written() + old(self).write_buf@,   // [C14]
@@ -204,7 +206,7 @@ pub open spec fn rd_post<T: AsyncRead, U: Decoder>(o: Framed<T, U>, n: Framed<T,
 
 impl<T, U> Framed<T, U> {
 
-//@extract file=actix-codec/src/framed.rs item="impl<T, U> Framed<T, U> / fn next_item" ret=r props=C13 unproject
+//@extract file=actix-codec/src/framed.rs item="impl<T, U> Framed<T, U> / fn next_item" ret=r props=C13,C14 unproject
 //@spec
     requires
         old(self).rd_wf(),
@@ -296,7 +298,7 @@ where
     type Item = Result<U::Item, U::Error>;
     open spec fn stream_wf(&self) -> bool { self.rd_wf() && need_more_is_noop::<U>() }
 
-//@extract file=actix-codec/src/framed.rs item="impl<T, U> Stream for Framed<T, U> / fn poll_next" ret=r props=C13
+//@extract file=actix-codec/src/framed.rs item="impl<T, U> Stream for Framed<T, U> / fn poll_next" ret=r props=C13,C14
 //@spec
     ensures
         rd_post(*old(self), *final(self), r),   // [C13]
@@ -320,7 +322,7 @@ where
 {
     type Error = U::Error;
 
-//@extract file=actix-codec/src/framed.rs item="impl<T, U, I> Sink<I> for Framed<T, U> / fn poll_ready" ret=r props=C14
+//@extract file=actix-codec/src/framed.rs item="impl<T, U, I> Sink<I> for Framed<T, U> / fn poll_ready" ret=r props=C14,C13
 //@spec
     ensures
         // below the high-water mark: ready at once, without touching the transport   [C14]
@@ -331,14 +333,14 @@ where
         final(self).io.written() + final(self).write_buf@ == old(self).io.written() + old(self).write_buf@,
 //@end
 
-//@extract file=actix-codec/src/framed.rs item="impl<T, U, I> Sink<I> for Framed<T, U> / fn start_send" ret=r props=C14
+//@extract file=actix-codec/src/framed.rs item="impl<T, U, I> Sink<I> for Framed<T, U> / fn start_send" ret=r props=C14,C13
 //@spec
     ensures
         r is Ok ==> final(self).write_buf@ == old(self).write_buf@ + U::enc(item),   // [C14]
         final(self).io == old(self).io,
 //@end
 
-//@extract file=actix-codec/src/framed.rs item="impl<T, U, I> Sink<I> for Framed<T, U> / fn poll_flush" ret=r props=C14
+//@extract file=actix-codec/src/framed.rs item="impl<T, U, I> Sink<I> for Framed<T, U> / fn poll_flush" ret=r props=C14,C13
 //@spec
     ensures
         final(self).io.written() + final(self).write_buf@ == old(self).io.written() + old(self).write_buf@,   // [C14]
@@ -347,7 +349,7 @@ where
         r is Pending ==> final(self).io.w_parked(),   // [C14] Pending only when the transport said Pending (and holds the waker)
 //@end
 
-//@extract file=actix-codec/src/framed.rs item="impl<T, U, I> Sink<I> for Framed<T, U> / fn poll_close" ret=r props=C14
+//@extract file=actix-codec/src/framed.rs item="impl<T, U, I> Sink<I> for Framed<T, U> / fn poll_close" ret=r props=C14,C13
 //@spec
     ensures
         final(self).io.written() + final(self).write_buf@ == old(self).io.written() + old(self).write_buf@,   // [C14]
@@ -397,15 +399,15 @@ impl<T, U> Framed<T, U> {
 //@spec
     ensures *r == old(self).io, final(self).io == *final(r), final(self).codec == old(self).codec, final(self).same_buffers(&old(self)),
 //@end
-//@extract file=actix-codec/src/framed.rs item="impl<T, U> Framed<T, U> / fn is_read_buf_empty" ret=r props=C13 name=framed::is_read_buf_empty
+//@extract file=actix-codec/src/framed.rs item="impl<T, U> Framed<T, U> / fn is_read_buf_empty" ret=r props=C13,C14 name=framed::is_read_buf_empty
 //@spec
     ensures r == (self.read_buf@.len() == 0),
 //@end
-//@extract file=actix-codec/src/framed.rs item="impl<T, U> Framed<T, U> / fn is_write_buf_empty" ret=r props=C14 name=framed::is_write_buf_empty
+//@extract file=actix-codec/src/framed.rs item="impl<T, U> Framed<T, U> / fn is_write_buf_empty" ret=r props=C14,C13 name=framed::is_write_buf_empty
 //@spec
     ensures r == (self.write_buf@.len() == 0),
 //@end
-//@extract file=actix-codec/src/framed.rs item="impl<T, U> Framed<T, U> / fn is_write_buf_full" ret=r props=C14 name=framed::is_write_buf_full
+//@extract file=actix-codec/src/framed.rs item="impl<T, U> Framed<T, U> / fn is_write_buf_full" ret=r props=C14,C13 name=framed::is_write_buf_full
 //@spec
     ensures r == (self.write_buf@.len() >= HW),
 //@end
@@ -437,7 +439,7 @@ impl<T, U> FramedParts<T, U> {
 //@spec
     ensures r.read_buf@.len() == 0, r.write_buf@.len() == 0, r.flags.no_flags(), r.io == io, r.codec == codec,
 //@end
-//@extract file=actix-codec/src/framed.rs item="impl<T, U> FramedParts<T, U> / fn with_read_buf" ret=r props=C13 name=framed::parts_with_read_buf
+//@extract file=actix-codec/src/framed.rs item="impl<T, U> FramedParts<T, U> / fn with_read_buf" ret=r props=C13,C14 name=framed::parts_with_read_buf
 //@spec
     ensures r.read_buf@ == read_buf@, r.write_buf@.len() == 0, r.flags.no_flags(), r.io == io, r.codec == codec,   // [C13] prefilled bytes are decoded first
 //@end
